@@ -158,7 +158,7 @@ def gen_case(rng):
 
 
 def run(ctx):
-    total = 170 if ctx.tier == "quick" else 5000
+    total = 200 if ctx.tier == "quick" else 8000
     for _ in range(ctx.share(total)):
         if not ctx.time_left():
             break
